@@ -178,6 +178,19 @@ func main() {
 			mres, mfail := runMutants(prop, absRepo, *verif)
 			c.failures = append(c.failures, mfail...)
 			extra["mutant_selftest"] = mres
+			sres, sfail := runSeeds(prop, absRepo, *verif)
+			c.failures = append(c.failures, sfail...)
+			extra["seeded_breakages_selftest"] = sres
+			sd, ss := 0, 0
+			for _, r := range sres {
+				if r.Outcome == "detected" {
+					sd++
+				}
+				if r.Outcome == "skipped" {
+					ss++
+				}
+			}
+			fmt.Printf("  selftest: %d independently seeded breakages of this property re-applied in memory, %d refused, %d skipped (patch no longer applies)\n", len(sres), sd, ss)
 			det, sil := 0, 0
 			for _, r := range mres {
 				if r.Outcome == "detected" {
